@@ -151,6 +151,9 @@ def spec(tier, seed):
               bounds="every %d-dimensional bound list (any i32 bounds)" % d,
               functions=["rusty_basic::interpreter::handlers::allocation::to_dimensions"])
 
+    # (probed: InstructionGenerator::generate_fix_string_length on one by-reference argument of symbolic STRING * n type -
+    # CBMC resource failure after 140-200 s; Expression::expression_type clones the recursive ExpressionType enum.  Outside.)
+
     return b.build(
         tier,
         bounds="1-, 2-, 3-dimensional shapes; lower bounds any i8; extents <= 4, 4x4, 2x2x2 (quick) and <= 8, 6x4, 4x3x2, 3x3x3 (thorough); "
